@@ -34,7 +34,7 @@ ASSUMPTIONS = [
     "negativity's docstring sentence 'non-target dimensions will be traced out first' cannot apply (there is no sysb); "
     "the bipartition reading shared with logneg (whose docstring says so) is used",
     "approx_spectral results are compared with |err| <= 0.1*(|exact|+1) (10x the documented default tol=1e-2 with tol_scale=1) "
-    "on subsystems of dimension >= 8 with quimb's generator seeded from the case",
+    "on operators of dimension >= 8 (on 2-4 dimensional operators the Rademacher estimator is off by 30%) with quimb's generator seeded from the case",
     "measure / dephase(rand_rank) draw from numpy's global generator: it is seeded from the case immediately before the call",
 ]
 
@@ -1746,22 +1746,24 @@ APPROX_FNS = ("entropy_subsys_approx", "tr_sqrt_subsys_approx", "logneg_subsys_a
 @st.composite
 def s_approx(draw, tier):
     fn = draw(st.sampled_from(APPROX_FNS))
-    two = fn.startswith(("logneg", "negativity", "mutinf"))
-    maxD = 72 if two else 128
-    # by construction: subsystem A of dimension >= 8 (>= 4 for the two-subsystem routes), environment >= 2
-    for _ in range(1):
-        dims = draw(s_dims(4, 6, maxD=maxD, choices=(2, 2, 3)))
+    two = fn.startswith(("logneg", "negativity"))
+    # by construction the operator handed to the stochastic estimator has dimension >= 8:
+    #  one-subsystem routes: 6 sites, |A| = 3 sites (dim 8..27) and environment >= 8 (the routes swap to the smaller side)
+    #  logneg / negativity: 5 sites, D <= 72, A u B = all but one site (dim >= 10)
+    #  mutinf_subsys: 6 sites, |A| = 3, |B| = 2, |C| = 1 (S(A) goes through the estimator, S(B), S(AB) mostly exact)
+    if two:
+        dims = draw(s_dims(5, 5, maxD=72, choices=(2, 2, 3)))
+    else:
+        dims = draw(s_dims(6, 6, maxD=128, choices=(2, 2, 3)))
     n = len(dims)
     perm = list(draw(st.permutations(list(range(n)))))
-    sysa, da = [], 1
-    need = 4 if two else 8
-    for i in perm:
-        if da >= need or len(sysa) >= n - (2 if two else 1):
-            break
-        sysa.append(i)
-        da *= dims[i]
-    rest = [i for i in perm if i not in sysa]
-    sysb = rest[:max(1, len(rest) - 1)] if two else []
+    if two:
+        k = draw(st.integers(1, 3))
+        sysa, sysb = perm[:k], perm[k:n - 1]
+    elif fn.startswith("mutinf"):
+        sysa, sysb = perm[:3], perm[3:5]
+    else:
+        sysa, sysb = perm[:3], []
     return {"fn": fn, "dims": dims, "sysa": sysa, "sysb": sysb, "seed": draw(A.seeds), "qseed": draw(st.integers(0, 2 ** 31 - 1)),
             "kind": draw(st.sampled_from(["haar", "haar", "ghz2"]))}
 
@@ -1782,18 +1784,18 @@ def run_approx(case):
     if name in ("entropy_subsys_approx", "entropy_subsys"):
         ref = H2(o_schmidt(x, dims, sysa) ** 2)
         if fn.endswith("thresh"):
-            got = qu.entropy_subsys(psi, tuple(dims), tuple(sysa), approx_thresh=2)
+            got = qu.entropy_subsys(psi, tuple(dims), tuple(sysa), approx_thresh=8)
         else:
             got = aps.entropy_subsys_approx(psi, tuple(dims), tuple(sysa))
     elif name in ("tr_sqrt_subsys_approx", "tr_sqrt_subsys"):
         ref = float(np.sum(o_schmidt(x, dims, sysa)))
         if fn.endswith("thresh"):
-            got = qu.tr_sqrt_subsys(psi, tuple(dims), tuple(sysa), approx_thresh=2)
+            got = qu.tr_sqrt_subsys(psi, tuple(dims), tuple(sysa), approx_thresh=8)
         else:
             got = aps.tr_sqrt_subsys_approx(psi, tuple(dims), tuple(sysa))
     elif name == "mutinf_subsys":
         ref = o_mutinf(x, dims, sysa, sysb)
-        got = qu.mutinf_subsys(psi, tuple(dims), tuple(sysa), tuple(sysb), approx_thresh=2)
+        got = qu.mutinf_subsys(psi, tuple(dims), tuple(sysa), tuple(sysb), approx_thresh=8)
         rel = 0.3  # three independent estimates
     else:
         dab, pa, pb, ab = sub_positions(dims, sysa, sysb)
@@ -1805,14 +1807,14 @@ def run_approx(case):
         else:
             ref = o_logneg(rab, dab, pa)
             if fn.endswith("thresh"):
-                got = qu.logneg_subsys(psi, tuple(dims), tuple(sysa), tuple(sysb), approx_thresh=2)
+                got = qu.logneg_subsys(psi, tuple(dims), tuple(sysa), tuple(sysb), approx_thresh=8)
             else:
                 got = aps.logneg_subsys_approx(psi, tuple(dims), tuple(sysa), tuple(sysb))
     got = real_scalar(got, "approx", fn=fn)
     err = abs(got - ref) / (abs(ref) + 1)
     if not err <= rel:
         raise Violation("approx-outside-stochastic-tolerance", fn=fn, got=got, want=ref, err=err, rel=rel)
-    return {"nt": True, "cls": ["fn=" + fn, "kind=" + case["kind"], "da=%d" % da] + sys_classes(sysa, sysb) if sysb else ["fn=" + fn, "kind=" + case["kind"], "da=%d" % da] + sys_classes(sysa),
+    return {"nt": True, "cls": ["fn=" + fn, "kind=" + case["kind"], "da=%d" % da] + (sys_classes(sysa, sysb) if sysb else sys_classes(sysa)),
             "err": err / rel * 1e-12}  # err is reported relative to the stochastic tolerance, scaled so it does not drown the exact sub-checks
 
 
@@ -2052,7 +2054,7 @@ SUBCHECKS = [
     SubCheck("qid", run_qid, s_qid, examples=(100, 2000), shards=(1, 4),
              rule="qid vs sum_s coeff*||[rho, s_i]||_2^power (quimb.norm's documented default), sparse_comp on/off, precomp, ket==projector; nt: n>=2"),
     SubCheck("approx", run_approx, s_approx, examples=(6, 60), shards=(3, 6), soft_budget=(70.0, 900.0), hard_timeout=(600.0, 2400.0),
-             rule="entropy/tr_sqrt/logneg/negativity _subsys_approx and the approx_thresh routes of entropy_subsys, tr_sqrt_subsys, logneg_subsys, mutinf_subsys vs exact within 0.15-0.3*(|exact|+1), subsystem dim>=8 (>=4 for two-subsystem routes), seeded; all nt"),
+             rule="entropy/tr_sqrt/logneg/negativity _subsys_approx and the approx_thresh=8 routes of entropy_subsys, tr_sqrt_subsys, logneg_subsys, mutinf_subsys vs exact within 0.15-0.3*(|exact|+1); the estimated operator has dimension >=8 by construction (the routes swap to the smaller side); seeded; all nt"),
     SubCheck("lazy_linop", run_lazy, s_lazy, examples=(150, 3000), shards=(1, 4),
              rule="lazy_ptr_linop / lazy_ptr_ppt_linop (to_dense, matvec, matmat) vs reduced state / its partial transpose, spectrum and entries; nt: entangled n>=3"),
     SubCheck("sparse", run_sparse, s_sparse, examples=(250, 4000), shards=(1, 4),
